@@ -55,6 +55,8 @@ pub struct AppendHow {
     pub split_at: Option<usize>,
     /// send `context=` even for the zero context
     pub explicit_zero_ctx: bool,
+    /// write `context=` before `ttl=` in the query string (parameters have no order)
+    pub ctx_first: bool,
 }
 
 pub fn append_query(spec: &FrameSpec, how: &AppendHow) -> String {
@@ -64,6 +66,9 @@ pub fn append_query(spec: &FrameSpec, how: &AppendHow) -> String {
     }
     if spec.ctx != 0 || how.explicit_zero_ctx {
         q.push(format!("context={}", id_str(spec.ctx)));
+    }
+    if how.ctx_first {
+        q.reverse();
     }
     if q.is_empty() {
         String::new()
@@ -259,7 +264,20 @@ pub fn parse_sse(body: &[u8]) -> Result<Vec<WFrame>, String> {
 
 /// Non-following `GET /`.
 pub fn read(sock: &Path, opts: &ROpts, sse: bool) -> HOut<Vec<WFrame>> {
-    let mut req = Req::new("GET", &format!("/{}", read_query(opts)));
+    // a switch that is off may also be spelled out (`tail=0`, `tail=false`, `tail=no`)
+    let mut q = read_query(opts);
+    if !opts.tail {
+        let off = match opts.limit.unwrap_or(0) % 4 {
+            1 => Some("tail=0"),
+            2 => Some("tail=false"),
+            3 => Some("tail=no"),
+            _ => None,
+        };
+        if let Some(off) = off {
+            q = if q.is_empty() { format!("?{off}") } else { format!("{q}&{off}") };
+        }
+    }
+    let mut req = Req::new("GET", &format!("/{q}"));
     if sse {
         req = req.header("Accept", b"text/event-stream");
     }
